@@ -8,24 +8,18 @@ Import ListNotations.
 Local Open Scope N_scope.
 
 (* ------------------------------------------------------------------ construction *)
-Definition ctx_ok (nd : bool) (c : ctx) : bool := c03_wf c && (negb nd || c03_nodata c).
 
-Lemma fold_init_ok nd : forall init m, mb_ok nd m = true -> mb_ok nd (fold_left add_init init m) = true.
+Lemma fold_init_ok : forall init m, mb_ok m = true -> mb_ok (fold_left add_init init m) = true.
 Proof.
   induction init as [|[p [f v]] r IH]; intros m H; [exact H|].
   cbn [fold_left]. apply IH. unfold add_init. rewrite mb_ok_field. exact H.
 Qed.
 
-Lemma create_group_ok nd g deep :
-  part_ok g = true -> (nd = true -> nolen_b (g_traits g) = true) -> mb_ok nd (create_group g deep) = true.
-Proof.
-  intros Hp Hn. unfold part_ok in Hp. unfold mb_ok, create_group. cbn [mb_fp mb_subs].
-  rewrite Hp. cbn [andb]. destruct nd; [|reflexivity]. cbn [negb orb]. exact (Hn eq_refl).
-Qed.
+Lemma create_group_ok g deep : part_ok g = true -> mb_ok (create_group g deep) = true.
+Proof. intros Hp. unfold part_ok in Hp. unfold mb_ok, create_group. cbn [mb_fp mb_subs]. exact Hp. Qed.
 
-Lemma mk_part_ok nd g init deep :
-  part_ok g = true -> (nd = true -> nolen_b (g_traits g) = true) -> mb_ok nd (mk_part g init deep) = true.
-Proof. intros Hp Hn. unfold mk_part. apply fold_init_ok. apply create_group_ok; assumption. Qed.
+Lemma mk_part_ok g init deep : part_ok g = true -> mb_ok (mk_part g init deep) = true.
+Proof. intros Hp. unfold mk_part. apply fold_init_ok. apply create_group_ok; assumption. Qed.
 
 Lemma list_eqb_nil a : list_eqb a [] = true -> a = [].
 Proof. destruct a; [reflexivity|discriminate]. Qed.
@@ -38,34 +32,28 @@ Proof.
   - destruct (IH _ _ H) as [H1 H2]. split; [right; exact H1|exact H2].
 Qed.
 
-Lemma ctx_ok_parts nd c md : ctx_ok nd c = true -> In md (c_msgs c) ->
-  mb_ok nd (mk_part (c_header c) (c_hdr_init c) true) = true /\
-  mb_ok nd (create_group (md_meta md) false) = true /\
-  mb_ok nd (mk_part (c_trailer c) (c_trl_init c) true) = true /\
+Lemma ctx_ok_parts c md : c03_wf c = true -> In md (c_msgs c) ->
+  mb_ok (mk_part (c_header c) (c_hdr_init c) true) = true /\
+  mb_ok (create_group (md_meta md) false) = true /\
+  mb_ok (mk_part (c_trailer c) (c_trl_init c) true) = true /\
   md_type md <> [].
 Proof.
-  unfold ctx_ok, c03_wf, c03_nodata. intros H Hin.
-  apply andb_true_iff in H. destruct H as [Hw Hd].
+  unfold c03_wf. intros Hw Hin.
   apply andb_true_iff in Hw. destruct Hw as [Hw Hm]. apply andb_true_iff in Hw. destruct Hw as [Hh Ht].
   rewrite forallb_forall in Hm. specialize (Hm _ Hin). apply andb_true_iff in Hm. destruct Hm as [Hm Hty].
-  assert (Hn : nd = true -> nolen_b (g_traits (c_header c)) = true /\ nolen_b (g_traits (c_trailer c)) = true /\
-                              nolen_b (g_traits (md_meta md)) = true).
-  { intros ->. cbn [negb orb] in Hd. apply andb_true_iff in Hd. destruct Hd as [Hd Hx].
-    apply andb_true_iff in Hd. destruct Hd as [H1 H2]. rewrite forallb_forall in Hx. specialize (Hx _ Hin). auto. }
   repeat split.
-  - apply mk_part_ok; [exact Hh|]. intros E. apply (Hn E).
-  - apply create_group_ok; [exact Hm|]. intros E. apply (Hn E).
-  - apply mk_part_ok; [exact Ht|]. intros E. apply (Hn E).
+  - apply mk_part_ok; exact Hh.
+  - apply create_group_ok; exact Hm.
+  - apply mk_part_ok; exact Ht.
   - destruct (md_type md); [discriminate|discriminate].
 Qed.
 
 (* ------------------------------------------------------------------ decode *)
 Section Top.
-Variables bd dr nd : bool.
+Variable bd : bool.
 Variable c : ctx.
 Variable from : list N.
 Hypothesis Hlen : bd = true -> lenN from < 4294967296.
-Hypothesis Hdr : dr = true -> digit_runs_ok MAX_FLD_LENGTH 0 from = true.
 
 Lemma fsize_le ignore : bd = true -> ignore <= lenN from ->
   (lenN from + 4294967296 - ignore) mod 4294967296 <= lenN from.
@@ -76,14 +64,13 @@ Proof.
 Qed.
 
 Lemma mbase_decode_good m off ignore pm :
-  (bd = true -> ignore <= lenN from) -> mb_ok nd m = true ->
-  rgood bd dr nd True (fun _ : mbase * N => True) (mbase_decode c real_caps from m off ignore pm).
+  (bd = true -> ignore <= lenN from) -> mb_ok m = true ->
+  rgood bd True (fun _ : mbase * N => True) (mbase_decode c real_caps from m off ignore pm).
 Proof.
   intros Hi Hok. unfold mbase_decode, mb_decode.
   eapply rgood_weaken.
   - apply (dec_loop_good c real_caps from _ ltac:(apply N.le_refl) ltac:(apply N.le_refl) bd).
     + intros Hb. apply fsize_le; auto.
-    + exact Hdr.
     + unfold dec_fuel. rewrite lenN_length. lia.
     + exact Hok.
   - intros _. unfold dec_fuel. rewrite lenN_length. lia.
@@ -92,8 +79,8 @@ Qed.
 
 Lemma msg_decode_good msg off ignore pm :
   (bd = true -> ignore <= lenN from) ->
-  mb_ok nd (m_hdr msg) = true -> mb_ok nd (m_body msg) = true -> mb_ok nd (m_trl msg) = true ->
-  rgood bd dr nd True (fun _ : message * N => True) (msg_decode c real_caps from msg off ignore pm).
+  mb_ok (m_hdr msg) = true -> mb_ok (m_body msg) = true -> mb_ok (m_trl msg) = true ->
+  rgood bd True (fun _ : message * N => True) (msg_decode c real_caps from msg off ignore pm).
 Proof.
   intros Hi Hh Hb Ht. unfold msg_decode.
   pose proof (mbase_decode_good (m_hdr msg) off 0 pm ltac:(intros; lia) Hh) as H1.
@@ -133,13 +120,12 @@ Qed.
 Lemma cstr_nil_of_nil l : l = [] -> cstr l = [].
 Proof. intros ->. reflexivity. Qed.
 
-Lemma factory_good bd dr nd c bytes nc pm :
-  ctx_ok nd c = true ->
+Lemma factory_good bd c bytes nc pm :
+  c03_wf c = true ->
   (bd = true -> is_bytes bytes = true /\ lenN bytes < 4294967296) ->
-  (dr = true -> digit_runs_ok MAX_FLD_LENGTH 0 bytes = true) ->
-  rgood bd dr nd True (fun _ : message => True) (factory c real_caps bytes nc pm).
+  rgood bd True (fun _ : message => True) (factory c real_caps bytes nc pm).
 Proof.
-  intros Hc Hb Hd. unfold factory.
+  intros Hc Hb. unfold factory.
   destruct (extract_header bytes (cap_htag real_caps) (cap_hval real_caps) (cap_len real_caps) (cap_mtype real_caps))
     as [[[hlen len] mtype]| | | |] eqn:Eh; cbn [bind].
   2:{ exact I. }
@@ -152,12 +138,12 @@ Proof.
   destruct (hlen =? 0); [exact I|].
   destruct (find_msg (c_msgs c) (cstr mtype)) as [md|] eqn:Em; [|exact I].
   destruct (find_msg_in _ _ _ Em) as [Hin Heq].
-  destruct (ctx_ok_parts nd c md Hc Hin) as (Hh & Hbd & Ht & Hty).
+  destruct (ctx_ok_parts c md Hc Hin) as (Hh & Hbd & Ht & Hty).
   (* the message class has a non-empty MsgType, so a third header token was seen: >= 7 bytes *)
   assert (H7 : 7 <= lenN bytes).
   { apply (extract_header_len _ _ _ _ _ _ _ _ Eh). intros ->. apply Hty. apply list_eqb_nil. exact Heq. }
   assert (Hlen : bd = true -> lenN bytes < 4294967296) by (intros E; apply (Hb E)).
-  pose proof (msg_decode_good bd dr nd c bytes Hlen Hd (mk_message c md false) hlen 7 pm (fun _ => H7) Hh Hbd Ht) as Hdec.
+  pose proof (msg_decode_good bd c bytes Hlen (mk_message c md false) hlen 7 pm (fun _ => H7) Hh Hbd Ht) as Hdec.
   destruct (msg_decode c real_caps bytes (mk_message c md false) hlen 7 pm) as [[msg1 tl]| | | |]; cbn [bind]; try exact Hdec.
   cbv zeta.
   destruct (lenN bytes <? 7) eqn:E7; [apply N.ltb_lt in E7; lia|].
@@ -165,48 +151,21 @@ Proof.
   destruct nc; [exact I|].
   destruct (calc_chksum (map Z.of_N (bytes ++ [0])) (Z.of_N (lenN bytes)) 0 (Z.of_N (lenN bytes) - 7)) as [[mchk hh]|] eqn:Ec.
   - match goal with |- context [if ?b then _ else _] => destruct b end; exact I.
-  - cbv beta iota delta [rgood]. destruct bd; [|left; reflexivity]. exfalso.
+  - cbv beta iota delta [rgood]. destruct bd; [|reflexivity]. exfalso.
     destruct (Hb eq_refl) as [H1 H3].
     exact (chksum_some bytes H1 H7 H3 Ec).
 Qed.
 
 (* ------------------------------------------------------------------ the statements of the Props file *)
-Lemma wf_ctx_ok c : c03_wf c = true -> ctx_ok false c = true.
-Proof. unfold ctx_ok. intros ->. reflexivity. Qed.
-
+(* the property as stated: Ok or a library exception, for every byte string *)
 Lemma c03_decode_safe_lemma c bytes nc pm :
   c03_wf c = true -> is_bytes bytes = true -> lenN bytes < 4294967296 ->
-  classified (factory c real_caps bytes nc pm).
-Proof.
-  intros Hw Hb Hl.
-  pose proof (factory_good true false false c bytes nc pm (wf_ctx_ok c Hw) (fun _ => conj Hb Hl) ltac:(discriminate)) as H.
-  destruct (factory c real_caps bytes nc pm); cbn in H |- *; try exact I; try exact H.
-  - destruct H as [H|[_ [H|[H _]]]]; [discriminate|right; exact H|left; exact H].
-  - tauto.
-Qed.
-
-Lemma c03_decode_digits_lemma c bytes nc pm :
-  c03_wf c = true -> is_bytes bytes = true -> lenN bytes < 4294967296 ->
-  digit_runs_ok MAX_FLD_LENGTH 0 bytes = true ->
-  classified_uninit (factory c real_caps bytes nc pm).
-Proof.
-  intros Hw Hb Hl Hd.
-  pose proof (factory_good true true false c bytes nc pm (wf_ctx_ok c Hw) (fun _ => conj Hb Hl) (fun _ => Hd)) as H.
-  destruct (factory c real_caps bytes nc pm); cbn in H |- *; try exact I; try exact H.
-  - destruct H as [H|[_ [H|[_ H]]]]; [discriminate|exact H|discriminate].
-  - tauto.
-Qed.
-
-Lemma c03_decode_safe_nodata_lemma c bytes nc pm :
-  c03_wf c = true -> c03_nodata c = true -> is_bytes bytes = true -> lenN bytes < 4294967296 ->
   safe (factory c real_caps bytes nc pm).
 Proof.
-  intros Hw Hn Hb Hl.
-  assert (Hc : ctx_ok true c = true) by (unfold ctx_ok; rewrite Hw, Hn; reflexivity).
-  pose proof (factory_good true false true c bytes nc pm Hc (fun _ => conj Hb Hl) ltac:(discriminate)) as H.
-  destruct (factory c real_caps bytes nc pm); cbn in H |- *; try exact I; try exact H.
-  - destruct H as [H|[H _]]; discriminate.
-  - tauto.
+  intros Hw Hb Hl.
+  pose proof (factory_good true c bytes nc pm Hw (fun _ => conj Hb Hl)) as H.
+  destruct (factory c real_caps bytes nc pm); cbn in H |- *; try exact I; try exact H; try discriminate.
+  tauto.
 Qed.
 
 (* totality of the model for EVERY list (not even bytes): neither Fuel nor Diverge *)
@@ -214,6 +173,6 @@ Lemma c03_decode_total_lemma c bytes nc pm :
   c03_wf c = true -> factory c real_caps bytes nc pm <> Fuel /\ factory c real_caps bytes nc pm <> Diverge.
 Proof.
   intros Hw.
-  pose proof (factory_good false false false c bytes nc pm (wf_ctx_ok c Hw) ltac:(discriminate) ltac:(discriminate)) as H.
+  pose proof (factory_good false c bytes nc pm Hw ltac:(discriminate)) as H.
   split; intros E; rewrite E in H; cbn in H; tauto.
 Qed.
